@@ -286,7 +286,7 @@ func scopes() map[string]*PropScope {
 		},
 		NotCovered: []string{"reflection-based renderers (LayerString/LayerDump/LayerGoString) are outside the subset: assumed not to panic on values whose Stringers do not panic", "accessors are verified for arbitrary receiver state (stronger than 'a packet that decoding produced'); obligations that need decode-established invariants are listed as not claimed"},
 	})
-	internalOnly := map[string]bool{"C11": true, "C14": true} // contracted functions are internal: a zero-valued receiver is not a state the API can produce, so models are not replayed
+	internalOnly := map[string]bool{"C11": true, "C14": true, "C06": true} // contracted functions are internal: a zero-valued receiver is not a state the API can produce, so models are not replayed
 	tagged := func(id, technique string, notCovered ...string) {
 		add(&PropScope{ID: id, Closure: false, Technique: technique, NotCovered: notCovered, NoReplay: internalOnly[id],
 			Roots: func(e *Engine) []*ssa.Function {
@@ -303,7 +303,7 @@ func scopes() map[string]*PropScope {
 				return r
 			},
 			Cfg: func(e *Engine, f *ssa.Function, root bool) *FnConfig {
-				if internalOnly[id] {
+				if internalOnly[id] || id == "C08" && e.pkgName(f) == "layers" {
 					// the property is carried by the contract clauses; run-time safety of these internals belongs to other checks
 					return &FnConfig{Classes: classSet([]string{"pre", "post", "inv-entry", "inv-pres", "assert", "frame"})}
 				}
@@ -319,6 +319,9 @@ func scopes() map[string]*PropScope {
 		"writer->reader equality of whole files (needs a byte-sequence model of the stream through bufio): only framing arithmetic and result clauses are proved",
 		"libpcap reading the same packets (cgo)", "truncation at an arbitrary offset yields a true prefix: follows from the reader contracts (an error from the stream is returned, complete records consume exactly their bytes) but is not proved as a whole-file theorem",
 		"option values written by writeOptions (the option payload is boxed in an interface{}: lengths are lost in the model)")
+	tagged("C06", "contract-based deductive verification: byte-layout contracts on SerializeTo (over the abstract view of the SerializeBuffer interface contract) and on DecodeFromBytes, round trip proved as ghost code over the two contracts, z3/cvc5",
+		"only the layers whose SerializeTo and DecodeFromBytes carry layout contracts are covered (listed under functions_under_contract); variable-length option lists, DNS names and the stacking helper are not",
+		"idempotence (writing the decoded stack again reproduces the bytes) follows from the layout contracts being functions of the fields but is not proved as a separate lemma")
 	tagged("C11", "contract-based deductive verification: completion-once typestate (closed flag) of both assemblers, page accounting of pagesFromTCP against a ghost count of page-cache allocations, z3/cvc5",
 		"no page remains in use after FlushAll, pages never exceed the limit by more than the current packet, age cut-off exactness: global accounting over linked lists and maps of connections (whole-history)",
 		"everything that depends on goroutine interleavings")
